@@ -48,6 +48,8 @@ class Gen:
         import struct
         from .geom import dec, flatten_f
 
+        if "vtype" in op:
+            return op
         if self.rng.random() > 0.25:
             return op
         vals = [dec(x) for x in flatten_f(op[key])]
@@ -259,6 +261,8 @@ class Gen:
                     wells = [geo.real(w) for w in flat]
         op = {"op": kind, "lab": li, "wells": warg, "label": rng.choice(LABELS), "intent": intent}
         op.update(flags)
+        if isinstance(warg, list) and warg and not isinstance(warg[0], list) and rng.random() < 0.12:
+            op["wbuf"] = rng.choice(["list", "array"])
         worklist_cap = kind in ("aspirate", "dispense")
         if intent == "ok":
             if rng.random() < 0.3:
@@ -290,7 +294,16 @@ class Gen:
             op["intent"] = f"{intent}@{k}:{how}"
             rest = [snap_down(rng.uniform(0, 5), self.regime) for _ in wells[k + 1:]]
             vols.extend(rest)
+            whole = False
+            if how in ("big", "step") and rng.random() < 0.3 and all(v == v and v < 60000 for v in vols):
+                # the same aimed rejection in whole microlitres (earlier elements rounded down: they still fit; the
+                # crossing one rounded up: it still crosses), handed over in an integer type - unsigned ones included
+                vols = [float(math.floor(v)) for v in vols[:k]] + [float(math.ceil(vols[k]))] + [float(math.floor(v)) for v in vols[k + 1:]]
+                whole = True
             op["volumes"] = enc(self.shape_like(warg, vols))
+            if whole:
+                cands = ["int", "int64", "uint16"] + (["uint8"] if max(vols) < 256 else [])
+                op["vtype"] = rng.choice(cands + ["uint16", "uint8"] if max(vols) < 256 else cands + ["uint16"])
         if kind in ("add", "dispense"):
             r = rng.random()
             if r < self.cfg.get("p_comp", 0.6):
